@@ -195,16 +195,16 @@ def rule_r3(chk):
 
 
 def run(chk):
-    rule_r1(chk)
-    rule_r2(chk)
-    rule_r3(chk)
+    chk.guard(rule_r1, chk)
+    chk.guard(rule_r2, chk)
+    chk.guard(rule_r3, chk)
     from . import c01, c03
-    c03.rule_r7(chk, rid="C08-R4")
-    c01.rule_r6(chk, rid="C08-R5")
+    chk.guard(c03.rule_r7, chk, rid="C08-R4")
+    chk.guard(c01.rule_r6, chk, rid="C08-R5")
     from .. import variants
-    variants.apply(chk, "C08-R6", [("irispie.fords.kalmans", "kalman_filter")])
+    chk.guard(variants.apply, chk, "C08-R6", [("irispie.fords.kalmans", "kalman_filter")])
     from .. import gens
-    gens.apply(chk, "C08-R7", {"fords"}, 3, "per-period or per-variant work fed from an exhausted iterator is silently skipped")
+    chk.guard(gens.apply, chk, "C08-R7", {"fords"}, 3, "per-period or per-variant work fed from an exhausted iterator is silently skipped")
     chk.assumptions = [
         "that smoothed means reproduce data and equations is numerical: NOT decided",
         "Solution.Ua/Ta/Pa/Ka/Za form one consistent triangular representation (C01)",
